@@ -77,6 +77,7 @@ struct SesCtx {
     bool in_cb_call = false;
     uint32_t store_count = 0;
     size_t mem_cursor = 0;
+    bool implicit_last = false;
 };
 
 struct Executor {
@@ -584,7 +585,10 @@ struct Executor {
             if (cst == 0) {
                 sc.lastnull = ln;
                 check_lastnull_flag(sc, ln);
-                if (sc.s->role == R_DEC && ln && sc.has_peel) { sc.peel.add(sc.n - 1); count("decoder_implicit_null_symbol"); }
+                // H2: the decoder's implicit symbol counts as received only if the claim is *true* for this matrix (C15);
+                // a decoder that injects a zero symbol the code does not guarantee has received nothing
+                sc.implicit_last = sc.s->role == R_DEC && ln && sc.fc->code->all_source_cols_even;
+                if (sc.implicit_last && sc.has_peel) { sc.peel.add(sc.n - 1); count("decoder_implicit_null_symbol"); }
             }
             check_pchk_whitebox(sc);
             if (sc.fc->code->extra_entries) count("h5170_extra_entries_branch");
@@ -654,7 +658,7 @@ struct Executor {
         // whatever peeling derived from it)
         std::vector<uint8_t> known(sc.n, 0);
         if (!enc && sc.has_peel) known = sc.peel.known;
-        if (!enc && sc.lastnull == 1) { Peel p; p.init(&c); p.add(sc.n - 1); known = p.known; }
+        if (!enc && sc.lastnull == 1) { Peel p; p.init(&c); p.add(sc.n - 1); known = p.known; }      // what the library believes it knows
         std::string bad;
         if (w.bad) bad = "entry out of range";
         for (uint32_t j = 0; j < sc.r && bad.empty(); j++) {
@@ -844,7 +848,7 @@ struct Executor {
         if ((ldpc || twod) && sc.has_peel && judged(sc)) {
             std::vector<uint8_t> known(sc.n, 0);
             for (uint32_t i = 0; i < sc.n; i++) known[i] = sc.got[i];
-            if (sc.lastnull == 1) known[sc.n - 1] = 1;
+            if (sc.implicit_last) known[sc.n - 1] = 1;
             rr = rank_recoverable(*sc.fc->code, known);
             model_known = true; model_rec = rr.recoverable;
             if (rr.needed_elimination) { sc.ml_needed = true; count("finish_needs_elimination"); if (rr.recoverable) count("finish_elimination_recoverable"); else if (rr.rows_used >= rr.unknowns) count("finish_rank_deficient_with_enough_rows"); }
